@@ -198,9 +198,10 @@ def check_seq(seq, stats):
             if not preset_used or True:
                 for a, (ln, cap, ver, _) in enumerate(summary):
                     nlive = sum(1 for (aa, _) in w.live.values() if aa == a)
-                    # tracked count is exact only when every structural op was observed; it is
-                    # (iter_destroy reports destroyed entities in its call log)
-                    pass
+                    # len() equals the number of entities created and not yet destroyed; the tracked
+                    # count is exact as long as every removal could be attributed to an entity
+                    if not w.unknown_destroy and not (wrapping and preset_used) and kind not in ("create", "createw", "destroy", "iterd", "clone") and nlive != ln:
+                        hits.append(hit("C12", seq, no, raw, f"len() of archetype {a} is {ln}, but {nlive} entities were created in it and not destroyed", "len-live-count"))
                     if ln > cap:
                         hits.append(hit("C12", seq, no, raw, f"len {ln} > capacity {cap} in archetype {a}", "len-gt-cap"))
                     if cap > (1 << 24):
